@@ -172,6 +172,7 @@ func (vc *VC) parseAssigns(cls []*Clause, env *Env) (regs []region, everything b
 				}
 				et := s.GoT.Underlying().(*types.Slice).Elem()
 				var preSteps []int
+				lastFieldHeap := ""
 				if fieldPath != "" {
 					for _, fname := range strings.Split(fieldPath, ".") {
 						obj, index, _ := types.LookupFieldOrMethod(et, true, env.pkgOf(et), fname)
@@ -180,6 +181,7 @@ func (vc *VC) parseAssigns(cls []*Clause, env *Env) (regs []region, everything b
 						}
 						for _, ix := range index {
 							preSteps = append(preSteps, ix)
+							lastFieldHeap = vc.enc.FieldHeap(et, ix)
 							et = et.Underlying().(*types.Struct).Field(ix).Type()
 						}
 					}
@@ -191,7 +193,11 @@ func (vc *VC) parseAssigns(cls []*Clause, env *Env) (regs []region, everything b
 				}
 				for _, lf := range vc.enc.Leaves(et) {
 					p := pathConst(append(append([]int{}, preSteps...), lf.steps...))
-					regs = append(regs, region{heap: lf.heap, in: func(loc string) string {
+					hp := lf.heap
+					if _, isStruct := et.Underlying().(*types.Struct); !isStruct && lastFieldHeap != "" {
+						hp = lastFieldHeap // the named field itself is the cell
+					}
+					regs = append(regs, region{heap: hp, in: func(loc string) string {
 						return and(eq(sx("l_base", loc), sx("s_arr", st)), sx("<=", sx("s_off", st), sx("l_idx", loc)),
 							sx("<", sx("l_idx", loc), sx("+", sx("s_off", st), bound)), eq(sx("l_path", loc), fmt.Sprint(p)))
 					}})
@@ -819,6 +825,11 @@ func (vc *VC) applyHint(c *Clause, env *Env, pc string) {
 			vc.oblige("pre", "lemma "+lm.Name, pc, req, nil, 0, "precondition of lemma "+lm.Name+" at a `use` hint")
 		}
 		vc.assume(pc, ens)
+	case "assert":
+		// proved here, then available as a fact (a cut point inside a long function body)
+		g := vc.evalBool(c.Expr, env)
+		vc.oblige("assert", c.Label, pc, g, vc.tagsFor(c), 0, "assertion: "+c.Text)
+		vc.assume(pc, g)
 	case "assume":
 		vc.explicitAssumes = append(vc.explicitAssumes, c.Text)
 		vc.assume(pc, vc.evalBool(c.Expr, env))
